@@ -1,1 +1,51 @@
-From Emd Require Import Base.Prelude Model.H5 Model.Emd Model.Reader.
+(* C05 -- every file written is a well-formed EMD 1.0 file.  Statements only.
+   PARTIAL: proved are layout facts about what the writer produces (for every tree): valid tags on every node
+   group, tagged bundles of tagged typed items, the header passing the package detector, the bundle created by
+   the append path being tagged, and (C09/C18 files) that a replace leaves no scratch group.  The complete
+   validator (incl. Array data/dim datasets, and every dispatch branch of write.py) runs on real files in the
+   harness after every successful save of every scenario. *)
+From Emd Require Import Base.Prelude Model.H5 Model.Emd Generated.Tables Proofs.PTree Proofs.P05 Proofs.P20.
+From Emd Require Generated.Version.
+
+Theorem C05_every_node_group_is_tagged :
+  forall root p k, ok_tree root -> rwalk root p = Some k ->
+    exists g, lookup (enc root) p = Some g /\
+      attr_str g "emd_group_type" = Some (gtype (rcls k)) /\ mem (gtype (rcls k)) EMD_group_types = true /\
+      attr_str g "python_class" = Some (pyclass (rcls k)).
+Proof. exact node_group_tagged. Qed.
+Print Assumptions C05_every_node_group_is_tagged.
+
+Theorem C05_group_types_come_from_the_vocabulary :
+  forall c, mem (gtype c) EMD_group_types = true.
+Proof. exact gtype_valid. Qed.
+Print Assumptions C05_group_types_come_from_the_vocabulary.
+
+Theorem C05_metadata_in_tagged_bundle_of_tagged_typed_items :
+  forall m, attr_is (bundle m) "emd_group_type" "metadatabundle" = true /\
+    forallb (fun kv => attr_is (snd kv) "emd_group_type" "metadata" && has (oattrs (snd kv)) "python_class"
+                       && forallb (fun it => has (oattrs (snd it)) "type") (olinks (snd kv))) (olinks (bundle m)) = true.
+Proof. exact bundle_wellformed. Qed.
+Print Assumptions C05_metadata_in_tagged_bundle_of_tagged_typed_items.
+
+Theorem C05_node_metadata_sits_in_the_bundle :
+  forall n, rmds n <> [] -> get (olinks (enc n)) "metadatabundle" = Some (bundle (rmds n)).
+Proof. exact node_bundle. Qed.
+Print Assumptions C05_node_metadata_sits_in_the_bundle.
+
+Theorem C05_written_header_passes_the_detector :
+  forall c root, is_emd_file (G (header c) [(rname root, enc root)]) = true <-> rcls root = CRoot.
+Proof. exact fresh_file_detected. Qed.
+Print Assumptions C05_written_header_passes_the_detector.
+
+Theorem C05_header_carries_program_and_user :
+  forall c, get (header c) "authoring_program" = Some (AStr (program c)) /\ get (header c) "authoring_user" = Some (AStr (user c))
+         /\ get (header c) "emd_group_type" = Some (AStr "file") /\ has (header c) "UUID" = true.
+Proof. intros c. repeat split; reflexivity. Qed.
+Print Assumptions C05_header_carries_program_and_user.
+
+Theorem C05_bundle_created_by_append_is_tagged :
+  forall ao mds rg rg', mds <> [] -> has (olinks rg) "metadatabundle" = false ->
+    append_root_metadata ao mds rg = Ok rg' ->
+    exists b, get (olinks rg') "metadatabundle" = Some b /\ attr_is b "emd_group_type" "metadatabundle" = true.
+Proof. exact appended_bundle_tagged. Qed.
+Print Assumptions C05_bundle_created_by_append_is_tagged.
